@@ -247,6 +247,17 @@ func zzC20SessionClosed() {
 	// a closed session no longer serves data
 	got, gerr := zzCollect(s, victim, "a", -1)
 	vAssert(gerr != nil && len(got) == 0, "C20.closed.no-replay")
+	// a stream opened afterwards under the same ids is brand new: it replays exactly what is appended to it from
+	// index 0, whatever the closed session had stored or evicted
+	d := vBytes("fresh", 1<<20)
+	vAssume(len(d) <= s.maxBytes)
+	if err := s.Append(context.Background(), victim, "a", d); err == nil {
+		got, gerr = zzCollect(s, victim, "a", -1)
+		vAssert(gerr == nil && len(got) == 1 && vSame(got[0], d), "C20.closed.new-stream-starts-from-scratch")
+		got, gerr = zzCollect(s, victim, "a", 0)
+		vAssert(gerr == nil && len(got) == 0, "C20.closed.new-stream-starts-from-scratch")
+		vReach("reopened")
+	}
 	vReach("end")
 }
 
@@ -299,7 +310,12 @@ func zzC20History() {
 		if vBool("stream") {
 			stream = "b"
 		}
-		switch vChoice("op", 3) {
+		switch vChoice("op", 4) {
+		case 3:
+			// the session ends; whatever is appended afterwards under the same ids belongs to brand-new streams
+			s.SessionClosed(context.Background(), "S")
+			h["a"], h["b"] = &hist{}, &hist{}
+			vAssert(s.nBytes == 0 && len(s.store["S"]) == 0, "C20.hist.session-closed-frees-everything")
 		case 0:
 			d := vBytes("d", 1<<30)
 			s.Append(context.Background(), "S", stream, d)
